@@ -219,6 +219,9 @@ func (fr *frame) callStatic(fn *ssa.Function, args []*Val, bindings []*Val, st *
 		return fr.inline(fn, args, bindings, resT, st, reach, pos)
 	}
 	key := externKey(fn)
+	if v, ok := fr.lockOp(key, args, st, reach, pos); ok {
+		return v
+	}
 	// a few string functions have native SMT meanings
 	switch key {
 	case "strings.HasPrefix":
@@ -656,6 +659,9 @@ func (fr *frame) callSpecBuiltin(fn *ssa.Function, args []*Val, resT types.Type,
 			return &Val{t: fmt.Sprintf("(forall ((%s Int)) (=> %s %s))", k, rng, body)}
 		}
 		return &Val{t: fmt.Sprintf("(exists ((%s Int)) (and %s %s))", k, rng, body)}
+	case "NoLocksHeld":
+		h := u.heapGet(st, "GH:locks", "(Array Int Int)")
+		return &Val{t: fmt.Sprintf("(= %s ((as const (Array Int Int)) 0))", h)}
 	case "sameSlice", "sameCerts", "sameElems", "sameStrings", "sameBytes", "sameAttrs", "sameChain":
 		return &Val{t: eq(args[0].t, args[1].t)}
 	case "ns":
@@ -718,6 +724,11 @@ func (fr *frame) callBuiltin(b *ssa.Builtin, c *ssa.CallCommon, args []*Val, st 
 		u.abstract("copy-contents")
 		return &Val{t: n}
 	case "delete":
+		if args[0].guard != "" && !fr.pure {
+			h := u.heapGet(st, "GH:locks", "(Array Int Int)")
+			u.oblige(fr.obName("guard-write", fr.describe(c.Args[0], 0)), "lock", []string{"C20"}, reach,
+				fmt.Sprintf("(= (select %s %s) 2)", h, args[0].guard), fr.pos(pos), "guarded map is updated only under the write lock")
+		}
 		mt := c.Args[0].Type().Underlying().(*types.Map)
 		pn, ps, _, _ := fr.mapHeaps(mt)
 		hp := u.heapGet(st, pn, ps)
@@ -828,4 +839,72 @@ func (fr *frame) devirtualise(c *ssa.CallCommon, recv *Val, args []*Val, resT ty
 		term = ite(fmt.Sprintf("(= (i-tag %s) %d)", recv.t, tag), res[0].t, term)
 	}
 	return &Val{t: fr.def("devirt", resT, term)}
+}
+
+
+// ---------------------------------------------------------------------------
+// lock discipline as sequential ghost state (C20): GH:locks maps a lock identity to 0 (free), 1 (read-held), 2 (write-held)
+
+// lockID gives the identity term of the mutex a pointer value designates: (base object, field path).
+func (fr *frame) lockID(a *Val, st *State) string {
+	u := fr.u
+	f := u.sorts.uf("lockid", []string{"Int", "Int"}, "Int")
+	if a.lv != nil && a.t == "" {
+		lv := a.lv
+		base := "0"
+		switch lv.kind {
+		case lvHeap:
+			base = lv.ref
+		case lvCell:
+			base = fmt.Sprint(stableHash(lv.name))
+		case lvElem:
+			base = lv.ref
+		}
+		path := lv.name
+		for _, p := range lv.path {
+			path += fmt.Sprintf(".%d", p.field)
+		}
+		return fmt.Sprintf("(%s %s %d)", f, base, stableHash(path))
+	}
+	return fmt.Sprintf("(%s %s 0)", f, fr.valTerm(a, st))
+}
+
+func stableHash(s string) int {
+	h := 0
+	for i := 0; i < len(s); i++ {
+		h = (h*131 + int(s[i])) % 1000003
+	}
+	return h + 1
+}
+
+func (fr *frame) lockOp(key string, args []*Val, st *State, reach string, pos token.Pos) (*Val, bool) {
+	var want, set int
+	switch key {
+	case "(*sync.RWMutex).RLock":
+		want, set = 0, 1
+	case "(*sync.RWMutex).Lock", "(*sync.Mutex).Lock":
+		want, set = 0, 2
+	case "(*sync.RWMutex).RUnlock":
+		want, set = 1, 0
+	case "(*sync.RWMutex).Unlock", "(*sync.Mutex).Unlock":
+		want, set = 2, 0
+	default:
+		return nil, false
+	}
+	u := fr.u
+	if fr.pure || len(args) == 0 {
+		return &Val{t: "0"}, true
+	}
+	id := u.define("lock", "Int", fr.lockID(args[0], st))
+	h := u.heapGet(st, "GH:locks", "(Array Int Int)")
+	name := "lock-free"
+	clause := "the lock is not already held by this request (sync.RWMutex is not reentrant: a second RLock can deadlock against a waiting writer)"
+	if set == 0 {
+		name = "lock-held"
+		clause = "unlock of a lock that is held in the matching mode"
+	}
+	u.oblige(fr.obName(name, shortKey(key)), "lock", []string{"C20"}, reach, fmt.Sprintf("(= (select %s %s) %d)", h, id, want), fr.pos(pos), clause)
+	u.heapSet(st, "GH:locks", "(Array Int Int)", fmt.Sprintf("(store %s %s %d)", h, id, set))
+	u.locksUsed = true
+	return &Val{t: "0"}, true
 }
